@@ -1,5 +1,278 @@
-import Arp.Model.Arith
-import Arp.Spec.Ops
+import Arp.Lemmas.Rem
+/-!
+# C11 (and the `rem` part of C19) — `rem` is the exact truncated remainder (`fmod`)
+
+For finite `x` and finite non-zero `y`, `x.rem(y)` is exactly `x − n·y` where `n` is `x/y`
+truncated toward zero: it is computed without any rounding error (in every rounding mode of the
+format), has the sign of `x` (including a zero result) and magnitude below `|y|`.  The result is
+NaN when `x` is infinite, `y` is zero or either is NaN, and `x` itself when `y` is infinite or `x`
+is zero.  The loop terminates within `fuelBound x y` = (exponent gap) + precision + 1 iterations.
+-/
 namespace Arp.C11
-theorem smoke : (1:Nat) + 1 = 2 := rfl
+open Arp
+
+/-! ### 1. Special operands -/
+
+/-- The special-operand table, for ANY fuel: NaN (with the sign of `x`) when `x` is infinite,
+    `y` is zero or either is NaN; otherwise `x` itself when `y` is infinite or `x` is zero. -/
+theorem rem_special (x y : Flt) (fuel : Nat) :
+    ((x.cat = .nan ∨ y.cat = .nan ∨ x.cat = .inf ∨ y.cat = .zero) →
+        x.remFuel fuel y = some (Flt.nan x.sem x.sign) ∧ Spec.rem x y = .nan) ∧
+    (¬ (x.cat = .nan ∨ y.cat = .nan ∨ x.cat = .inf ∨ y.cat = .zero) →
+      (x.cat = .zero ∨ y.cat = .inf) →
+        x.remFuel fuel y = some x ∧ Spec.rem x y = x.toRes) := by
+  cases hx : x.cat <;> cases hy : y.cat <;>
+    simp [Flt.remFuel, Spec.rem, Flt.isNan, Flt.isInf, Flt.isZero, Spec.isNan, Spec.isInf,
+      Spec.isZero, Flt.toRes, hx, hy]
+
+/-- outside the special cases `rem` runs the loop on `|x|` and `|y|` and restores the sign of `x` -/
+theorem remFuel_normal (x y : Flt) (fuel : Nat) (hx : x.cat = .normal) (hy : y.cat = .normal) :
+    x.remFuel fuel y =
+      (remLoop fuel x.abs (if y.sign then y.neg else y)).map (·.setSign x.sign) := by
+  simp [Flt.remFuel, Flt.isNan, Flt.isInf, Flt.isZero, hx, hy]
+
+/-- for finite non-zero operands the specification is the rounding toward zero of `remVal` -/
+theorem spec_rem_normal (x y : Flt) (hx : x.cat = .normal) (hy : y.cat = .normal) :
+    Spec.rem x y = Spec.roundQ x.sem .zero (Spec.remVal x y) x.sign := by
+  unfold Spec.rem Spec.remVal Spec.isNan Spec.isInf Spec.isZero
+  rw [hx, hy]
+  rfl
+
+/-! ### Rational arithmetic of the truncated quotient -/
+
+theorem floor_of_rem {a b : ℚ} (hb : 0 < b) (j : ℕ) (h0 : 0 ≤ a - (j : ℚ) * b)
+    (h1 : a - (j : ℚ) * b < b) : (a / b).floor = (j : Int) := by
+  rw [show (a / b).floor = ⌊a / b⌋ from rfl, Int.floor_eq_iff]
+  constructor
+  · rw [le_div_iff₀ hb]; push_cast; linarith
+  · rw [div_lt_iff₀ hb]; push_cast; linarith
+
+/-- `x − trunc(x/y)·y` is `±(|x| − j·|y|)` with the sign of `x`, once `0 ≤ |x| − j·|y| < |y|` -/
+theorem remVal_eq (xv yv a b : ℚ) (j : ℕ) (sx sy : Bool) (hx : xv = if sx then -a else a)
+    (hy : yv = if sy then -b else b) (ha : 0 < a) (hb : 0 < b) (h0 : 0 ≤ a - (j : ℚ) * b)
+    (h1 : a - (j : ℚ) * b < b) :
+    xv - (((if xv / yv < 0 then -((-(xv / yv)).floor) else (xv / yv).floor : Int)) : ℚ) * yv
+      = (if sx then -1 else 1) * (a - (j : ℚ) * b) := by
+  have hfl := floor_of_rem hb j h0 h1
+  have hq : 0 < a / b := div_pos ha hb
+  cases sx <;> cases sy <;> simp only [Bool.false_eq_true, if_false, if_true] at hx hy ⊢ <;>
+    rw [hx, hy]
+  · rw [if_neg (not_lt.2 hq.le), hfl]; push_cast; ring
+  · have e : a / -b = -(a / b) := by rw [div_neg]
+    rw [e, if_pos (by linarith), neg_neg, hfl]; push_cast; ring
+  · have e : -a / b = -(a / b) := by rw [neg_div]
+    rw [e, if_pos (by linarith), neg_neg, hfl]; push_cast; ring
+  · have e : -a / -b = a / b := by rw [neg_div_neg_eq]
+    rw [e, if_neg (not_lt.2 hq.le), hfl]; push_cast; ring
+
+theorem remVal_normal (x y : Flt) (hx : x.cat = .normal) (hy : y.cat = .normal) (j : ℕ)
+    (hxm : 0 < x.mag) (hym : 0 < y.mag) (h0 : 0 ≤ x.mag - (j : ℚ) * y.mag)
+    (h1 : x.mag - (j : ℚ) * y.mag < y.mag) :
+    Spec.remVal x y = (if x.sign then -1 else 1) * (x.mag - (j : ℚ) * y.mag) := by
+  unfold Spec.remVal
+  exact remVal_eq x.val y.val x.mag y.mag j x.sign y.sign (Flt.val_normal hx) (Flt.val_normal hy)
+    hxm hym h0 h1
+
+/-! ### `|y|` and the sign bookkeeping -/
+
+theorem absY (F : Sem) (y : Flt) (hs : y.sem = F) (hy : y.Canonical) (hc : y.cat = .normal) :
+    RemPos F (if y.sign then y.neg else y) ∧ (if y.sign then y.neg else y).mag = y.mag ∧
+      (if y.sign then y.neg else y).exp = y.exp := by
+  cases h : y.sign
+  · rw [if_neg (by decide)]
+    exact ⟨⟨hs, hy, hc, h⟩, rfl, rfl⟩
+  · rw [if_pos rfl]
+    exact ⟨⟨hs, hy, hc, by simp [Flt.neg, h]⟩, rfl, rfl⟩
+
+theorem absX (F : Sem) (x : Flt) (hs : x.sem = F) (hx : x.Canonical) (hc : x.cat = .normal) :
+    RemPos F x.abs ∧ x.abs.mag = x.mag ∧ x.abs.exp = x.exp ∧ x.abs.mant = x.mant :=
+  ⟨⟨hs, hx, hc, rfl⟩, rfl, rfl, rfl⟩
+
+theorem setSign_val {F : Sem} {r0 : Flt} (h : RemSt F r0) (s : Bool) :
+    (r0.setSign s).val = (if s then -1 else 1) * r0.val := by
+  rcases h.cat with hz | ⟨hn, hsg⟩
+  · have : (r0.setSign s).cat = .zero := hz
+    rw [Flt.val_zero this, Flt.val_zero hz, mul_zero]
+  · have : (r0.setSign s).cat = .normal := hn
+    rw [Flt.val_normal this, Flt.val_normal hn, hsg]
+    have hm : (r0.setSign s).mag = r0.mag := rfl
+    have hs' : (r0.setSign s).sign = s := rfl
+    rw [hm, hs']
+    cases s <;> simp
+
+/-! ### 2. Whenever the loop returns, the result is the exact remainder -/
+
+/-- the finite, non-zero case -/
+theorem rem_spec_normal (x y : Flt) (fuel : Nat) (hF : x.sem.WF) (hs : y.sem = x.sem)
+    (hx : x.Canonical) (hy : y.Canonical) (hxc : x.cat = .normal) (hyc : y.cat = .normal)
+    (r : Flt) (h : x.remFuel fuel y = some r) :
+    r.toRes = Spec.rem x y ∧ r.val = Spec.remVal x y ∧ |r.val| < |y.val| ∧ r.sign = x.sign := by
+  rw [remFuel_normal x y fuel hxc hyc, Option.map_eq_some_iff] at h
+  obtain ⟨r0, h0, rfl⟩ := h
+  obtain ⟨hrp, hrmag, _⟩ := absY x.sem y hs hy hyc
+  obtain ⟨hxp, hxmag, _, _⟩ := absX x.sem x rfl hx hxc
+  obtain ⟨hst, hlt, j, hj⟩ := remLoop_partial x.sem hF _ hrp fuel x.abs r0 hxp.toSt h0
+  rw [hrmag] at hlt hj
+  rw [hxp.val_eq, hxmag] at hj
+  have h0' := hst.val_nonneg
+  have hxm : 0 < x.mag := Flt.mag_pos x hxc hx
+  have hym : 0 < y.mag := Flt.mag_pos y hyc hy
+  have hrv : Spec.remVal x y = (if x.sign then -1 else 1) * r0.val := by
+    rw [remVal_normal x y hxc hyc j hxm hym (by rw [← hj]; exact h0') (by rw [← hj]; exact hlt), hj]
+  have hval : (r0.setSign x.sign).val = Spec.remVal x y := by
+    rw [setSign_val hst, hrv]
+  have hyabs : |y.val| = y.mag := by
+    rw [Flt.val_normal hyc]
+    cases y.sign <;> simp [abs_of_pos hym]
+  have habs : |(r0.setSign x.sign).val| = r0.val := by
+    rw [setSign_val hst]
+    cases x.sign <;> simp [abs_of_nonneg h0']
+  refine ⟨?_, hval, by rw [habs, hyabs]; exact hlt, rfl⟩
+  rw [spec_rem_normal x y hxc hyc, ← hval]
+  rcases hst.cat with hz | ⟨hn, _⟩
+  · have hz' : (r0.setSign x.sign).cat = .zero := hz
+    rw [Flt.val_zero hz']
+    unfold Spec.roundQ Flt.toRes
+    rw [hz', if_pos rfl]
+    rfl
+  · have hn' : (r0.setSign x.sign).cat = .normal := hn
+    have hsem : (r0.setSign x.sign).sem = x.sem := hst.sem
+    have hc' : (r0.setSign x.sign).Canonical := hst.can
+    have := C01.roundQ_normal (r0.setSign x.sign) .zero x.sign (by rw [hsem]; exact hF) hn' hc'
+    rw [hsem] at this
+    rw [this]
+    simp [Flt.toRes, hn']
+
+/-- **C11.** Whenever the loop returns, the result is the specified one for every category of
+    operands; for finite `x` and finite non-zero `y` it is the EXACT remainder `x − trunc(x/y)·y`
+    (no rounding error in any rounding mode), below `|y|` in magnitude, with the sign of `x`. -/
+theorem rem_spec (x y : Flt) (fuel : Nat) (hF : x.sem.WF) (hs : y.sem = x.sem)
+    (hx : x.Canonical) (hy : y.Canonical) (r : Flt) (h : x.remFuel fuel y = some r) :
+    r.toRes = Spec.rem x y ∧
+      (Spec.isFin x → Spec.isFin y → ¬ Spec.isZero y →
+        r.val = Spec.remVal x y ∧ |r.val| < |y.val| ∧ r.sign = x.sign) := by
+  by_cases hnan : x.cat = .nan ∨ y.cat = .nan ∨ x.cat = .inf ∨ y.cat = .zero
+  · obtain ⟨h1, h2⟩ := (rem_special x y fuel).1 hnan
+    rw [h1] at h; cases h
+    refine ⟨by rw [h2]; rfl, ?_⟩
+    intro hfx hfy hzy
+    exfalso
+    revert hfx hfy hzy
+    unfold Spec.isFin Spec.isZero
+    rcases hnan with h | h | h | h <;> simp [h]
+  · by_cases hself : x.cat = .zero ∨ y.cat = .inf
+    · obtain ⟨h1, h2⟩ := (rem_special x y fuel).2 hnan hself
+      rw [h1] at h; cases h
+      refine ⟨h2.symm, ?_⟩
+      intro hfx hfy hzy
+      -- `y` finite: then `x` is a zero and `y` is normal
+      have hyn : y.cat = .normal := by
+        revert hfy hzy; unfold Spec.isFin Spec.isZero
+        cases y.cat <;> simp
+      have hxz : x.cat = .zero := by
+        rcases hself with h | h
+        · exact h
+        · rw [hyn] at h; cases h
+      have hyv : y.val ≠ 0 := Flt.val_ne_zero y hyn hy
+      refine ⟨?_, by rw [Flt.val_zero hxz]; simpa using hyv, rfl⟩
+      unfold Spec.remVal
+      rw [Flt.val_zero hxz]
+      simp [show (0 : ℚ).floor = 0 from rfl]
+    · -- both normal
+      have hxc : x.cat = .normal := by
+        revert hnan hself; cases x.cat <;> simp
+      have hyc : y.cat = .normal := by
+        revert hnan hself; cases y.cat <;> simp
+      obtain ⟨h1, h2⟩ := rem_spec_normal x y fuel hF hs hx hy hxc hyc r h
+      exact ⟨h1, fun _ _ _ => h2⟩
+
+/-! ### 3. Termination: the C19 bound for `rem` -/
+
+/-- Fuel that always suffices: the gap of the exponent fields, plus the precision, plus one. -/
+def fuelBound (x y : Flt) : Nat := (x.exp - y.exp).toNat + x.sem.p + 1
+
+/-- any fuel from `fuelBound x y` on makes `rem` return -/
+theorem rem_fuel_ge (x y : Flt) (hF : x.sem.WF) (hs : y.sem = x.sem) (hx : x.Canonical)
+    (hy : y.Canonical) (fuel : Nat) (hf : fuelBound x y ≤ fuel) :
+    ∃ r, x.remFuel fuel y = some r := by
+  by_cases hnan : x.cat = .nan ∨ y.cat = .nan ∨ x.cat = .inf ∨ y.cat = .zero
+  · exact ⟨_, ((rem_special x y fuel).1 hnan).1⟩
+  by_cases hself : x.cat = .zero ∨ y.cat = .inf
+  · exact ⟨_, ((rem_special x y fuel).2 hnan hself).1⟩
+  have hxc : x.cat = .normal := by
+    revert hnan hself; cases x.cat <;> simp
+  have hyc : y.cat = .normal := by
+    revert hnan hself; cases y.cat <;> simp
+  obtain ⟨hrp, _, hrexp⟩ := absY x.sem y hs hy hyc
+  obtain ⟨hxp, _, hxexp, _⟩ := absX x.sem x rfl hx hxc
+  have h1 := hxp.remTop_le
+  have h2 := hrp.lt_remTop
+  unfold fuelBound at hf
+  obtain ⟨r0, hr0⟩ := remLoop_terminates x.sem hF _ hrp fuel x.abs hxp.toSt (by omega)
+    (fun _ _ => by omega)
+  exact ⟨r0.setSign x.sign, by rw [remFuel_normal x y fuel hxc hyc, hr0]; rfl⟩
+
+/-- **C19 for `rem`.** The loop needs at most `fuelBound x y` iterations. -/
+theorem rem_fuel (x y : Flt) (hF : x.sem.WF) (hs : y.sem = x.sem) (hx : x.Canonical)
+    (hy : y.Canonical) : ∃ r, x.remFuel (fuelBound x y) y = some r :=
+  rem_fuel_ge x y hF hs hx hy _ (le_refl _)
+
+/-- the looser bound quoted in the work order -/
+theorem rem_fuel_loose (x y : Flt) (hF : x.sem.WF) (hs : y.sem = x.sem) (hx : x.Canonical)
+    (hy : y.Canonical) :
+    ∃ r, x.remFuel ((|x.exp - y.exp|).toNat + 2 * x.sem.p + 4) y = some r := by
+  apply rem_fuel_ge x y hF hs hx hy
+  unfold fuelBound
+  have := le_abs_self (x.exp - y.exp)
+  omega
+
+/-! ### 4. Total correctness -/
+
+/-- **C11 + C19.** For canonical finite operands of a well-formed format with `y ≠ 0`, `rem`
+    returns within `fuelBound x y` iterations, and the value returned is the exact remainder. -/
+theorem rem_total (x y : Flt) (hF : x.sem.WF) (hs : y.sem = x.sem) (hx : x.Canonical)
+    (hy : y.Canonical) (hfx : Spec.isFin x) (hfy : Spec.isFin y) (hzy : ¬ Spec.isZero y) :
+    ∃ r, x.remFuel (fuelBound x y) y = some r ∧ r.toRes = Spec.rem x y ∧
+      r.val = Spec.remVal x y ∧ |r.val| < |y.val| ∧ r.sign = x.sign := by
+  obtain ⟨r, hr⟩ := rem_fuel x y hF hs hx hy
+  obtain ⟨h1, h2⟩ := rem_spec x y _ hF hs hx hy r hr
+  exact ⟨r, hr, h1, h2 hfx hfy hzy⟩
+
+/-! ### Concrete FP16 data -/
+
+/-- `7.5 rem 2 = 1.5` -/
+example : (⟨FP16, false, 2, 1920, .normal⟩ : Flt).remFuel 12 ⟨FP16, false, 1, 1024, .normal⟩
+    = some ⟨FP16, false, 0, 1536, .normal⟩ := by decide
+
+/-- `-7.5 rem 2 = -1.5` (sign of `x`), `7.5 rem -2 = 1.5` -/
+example : (⟨FP16, true, 2, 1920, .normal⟩ : Flt).remFuel 12 ⟨FP16, false, 1, 1024, .normal⟩
+    = some ⟨FP16, true, 0, 1536, .normal⟩ := by decide
+example : (⟨FP16, false, 2, 1920, .normal⟩ : Flt).remFuel 12 ⟨FP16, true, 1, 1024, .normal⟩
+    = some ⟨FP16, false, 0, 1536, .normal⟩ := by decide
+
+/-- `-6 rem 2 = -0`: a zero result keeps the sign of `x` -/
+example : (⟨FP16, true, 2, 1536, .normal⟩ : Flt).remFuel 12 ⟨FP16, false, 1, 1024, .normal⟩
+    = some ⟨FP16, true, 0, 0, .zero⟩ := by decide
+
+/-- a subnormal divisor: `1.0 rem (3·2^-24) = 2^-24`  (`2^24 = 3·5592405 + 1`) -/
+example : (⟨FP16, false, 0, 1024, .normal⟩ : Flt).remFuel 26 ⟨FP16, false, -14, 3, .normal⟩
+    = some ⟨FP16, false, -14, 1, .normal⟩ := by decide
+
+/-- the fuel bound of that example -/
+example : fuelBound ⟨FP16, false, 0, 1024, .normal⟩ ⟨FP16, false, -14, 3, .normal⟩ = 26 := by
+  decide
+
+/-- `rem_total` instantiated on the subnormal divisor -/
+example : ∃ r, (⟨FP16, false, 0, 1024, .normal⟩ : Flt).remFuel 26 ⟨FP16, false, -14, 3, .normal⟩
+      = some r ∧ r.val = Spec.remVal ⟨FP16, false, 0, 1024, .normal⟩ ⟨FP16, false, -14, 3, .normal⟩ := by
+  obtain ⟨r, h1, _, h2, _⟩ := rem_total ⟨FP16, false, 0, 1024, .normal⟩ ⟨FP16, false, -14, 3, .normal⟩
+    (by decide) rfl (by decide) (by decide) (by decide) (by decide) (by decide)
+  exact ⟨r, h1, h2⟩
+
+/-- special operands -/
+example : (Flt.inf FP16 true).remFuel 0 ⟨FP16, false, 1, 1024, .normal⟩ = some (Flt.nan FP16 true) :=
+  by decide
+example : (⟨FP16, false, 1, 1024, .normal⟩ : Flt).remFuel 0 (Flt.inf FP16 true)
+    = some ⟨FP16, false, 1, 1024, .normal⟩ := by decide
+
 end Arp.C11
